@@ -141,6 +141,7 @@ def run(ctx):
         ctx.vc("probe: accepted is empty (must NOT be discharged)", fq, smt, theory="str", probe=True, kind="probe")
     except Unsupported as e:
         ctx.mark_unproved(fq, "unsupported: %s" % e)
+    run_pyvc(ctx, real)
     ctx.solve()
     bounded(ctx, env, real)
     ctx.level = "other"
@@ -154,8 +155,173 @@ def run(ctx):
         "acceptance set equals VALID; ':' and '-' never occur in the revision group. BOUNDED: group values vs an "
         "independent decomposition, str() identity, recomposition and component-assignment histories (all strings up to "
         "the stated length over the pattern's minterm alphabet; that alphabet makes the enumeration exhaustive with "
-        "respect to the pattern's view of a character). The functions _set_full_version/__setattr__/_update_full_version "
-        "are not yet under a pyvc contract (their behaviour is covered by the bounded histories only).")
+        "respect to the pattern's view of a character). ALSO PROVED (pyvc, pattern as uninterpreted matches?/groups functions shared "
+        "by code and spec): _set_full_version stores exactly the groups of an accepted string and on ValueError modifies nothing; "
+        "_update_full_version recomposes epoch ':' upstream '-' revision; __setattr__ on every magic attribute either yields the "
+        "recomposed accepted version or raises ValueError with all four private fields equal to their old values (uses the class "
+        "invariant as precondition); __getattr__ incl. the debian_version alias; __str__. NOT proved: that the groups of the real "
+        "pattern equal the decomposition of the property (captures) - bounded part.")
+
+
+# ------------------------------------------------------------------------------------------------
+# P-14c..f: the functions around the regex, with the pattern as uninterpreted (matches?, groups)
+# functions shared by code and spec.  What the pattern accepts and captures is R-14a/c/d and B-14.
+from vf.pyvc.speclib import SpecLib
+from vf.pyvc.world import World, Contract
+from vf.pyvc.values import VObj, VOpt, VSeq, VPy, VFunc, NONE, fresh, fresh_name, lift
+from vf.pyvc.driver import verify_contracts
+
+
+def ver_accepted(v):
+    m = VRE().match(v)
+    return m is not None and not (m.group("epoch") is None and ":" in m.group("upstream_version"))
+
+
+def g_epoch(v):
+    return VRE().match(v).group("epoch")
+
+
+def g_upstream(v):
+    return VRE().match(v).group("upstream_version")
+
+
+def g_revision(v):
+    return VRE().match(v).group("debian_revision")
+
+
+def recompose(e, u, r):
+    s = ""
+    if e is not None:
+        s = s + e + ":"
+    s = s + u
+    if r:
+        s = s + "-" + r
+    return s
+
+
+def ver_inv(self):
+    """class invariant of a constructed version object"""
+    return (ver_accepted(self._BaseVersion__full_version)
+            and self._BaseVersion__epoch == g_epoch(self._BaseVersion__full_version)
+            and self._BaseVersion__upstream_version == g_upstream(self._BaseVersion__full_version)
+            and self._BaseVersion__debian_revision == g_revision(self._BaseVersion__full_version)
+            and self._BaseVersion__full_version == recompose(self._BaseVersion__epoch, self._BaseVersion__upstream_version,
+                                                             self._BaseVersion__debian_revision))
+
+
+FIELDS = ("self._BaseVersion__full_version", "self._BaseVersion__epoch", "self._BaseVersion__upstream_version",
+          "self._BaseVersion__debian_revision")
+UNCHANGED = " and ".join("%s == old(%s)" % (f, f) for f in FIELDS)
+DECOMPOSED = ("self._BaseVersion__full_version == {v} and self._BaseVersion__epoch == g_epoch({v}) and "
+              "self._BaseVersion__upstream_version == g_upstream({v}) and self._BaseVersion__debian_revision == g_revision({v})")
+RECOMP_OLD = "recompose(old(self._BaseVersion__epoch), old(self._BaseVersion__upstream_version), old(self._BaseVersion__debian_revision))"
+RECOMP_NOW = "recompose(self._BaseVersion__epoch, self._BaseVersion__upstream_version, self._BaseVersion__debian_revision)"
+
+
+def _vobj(ex, constructed=True):
+    f, e, u, r = (fresh(("opt", "str"), k) for k in ("full", "epoch", "upstream", "revision"))
+    ex.assume(z3.Not(u.isnone))
+    ex.assume(z3.Not(f.isnone))
+    return VObj("BaseVersion", {"_BaseVersion__full_version": f.val, "_BaseVersion__epoch": e,
+                                "_BaseVersion__upstream_version": u.val, "_BaseVersion__debian_revision": r}, "self")
+
+
+class SetFull(Contract):
+    target = MOD + ":BaseVersion._set_full_version"
+    modular = True
+    requires = ()
+    ensures = ("ver_accepted(version)", DECOMPOSED.format(v="version"))
+    raises = {"ValueError": ("not ver_accepted(version)",)}
+    raises_modifies = {"ValueError": ()}
+    modifies = FIELDS
+
+    def setup(self, ex):
+        return {"self": _vobj(ex), "version": fresh("str", "version")}
+
+
+class UpdateFull(Contract):
+    target = MOD + ":BaseVersion._update_full_version"
+    modular = True
+    requires = ()
+    ensures = ("ver_accepted(%s)" % RECOMP_OLD, DECOMPOSED.format(v=RECOMP_OLD))
+    raises = {"ValueError": ("not ver_accepted(%s)" % RECOMP_NOW,)}
+    raises_modifies = {"ValueError": ()}
+    modifies = FIELDS
+
+    def setup(self, ex):
+        return {"self": _vobj(ex)}
+
+
+class SetAttr(Contract):
+    modular = False
+    modifies = FIELDS
+    raises_modifies = {"ValueError": FIELDS}      # fields are written and restored: equality is the postcondition
+
+    def __init__(self, attr):
+        self.attr = attr
+        self.target = MOD + ":BaseVersion.__setattr__"
+        slot = {"epoch": 0, "upstream_version": 1, "debian_revision": 2, "debian_version": 2}.get(attr)
+        if attr == "full_version":
+            self.requires = ()
+            self.ensures = ("ver_accepted(value)", DECOMPOSED.format(v="value"))
+            self.raises = {"ValueError": ("not ver_accepted(value)", UNCHANGED)}
+        else:
+            parts = ["old(self._BaseVersion__epoch)", "old(self._BaseVersion__upstream_version)",
+                     "old(self._BaseVersion__debian_revision)"]
+            parts[slot] = "value"
+            new = "recompose(%s)" % ", ".join(parts)
+            self.requires = ("ver_inv(self)",)
+            self.ensures = ("ver_accepted(%s)" % new, DECOMPOSED.format(v=new))
+            self.raises = {"ValueError": ("not ver_accepted(%s)" % new, UNCHANGED)}
+
+    def setup(self, ex):
+        if self.attr == "upstream_version" or self.attr == "full_version":
+            value = fresh("str", "value")
+        else:
+            value = fresh(("opt", "str"), "value")
+        return {"self": _vobj(ex), "attr": lift(self.attr), "value": value}
+
+
+class GetAttr(Contract):
+    modular = False
+
+    def __init__(self, attr):
+        self.target = MOD + ":BaseVersion.__getattr__"
+        self.attr = attr
+        field = {"debian_version": "debian_revision"}.get(attr, attr)
+        self.ensures = ("result == self._BaseVersion__%s" % field,)
+
+    def setup(self, ex):
+        return {"self": _vobj(ex), "attr": lift(self.attr)}
+
+
+class Str(Contract):
+    target = MOD + ":BaseVersion.__str__"
+    modular = False
+    ensures = ("result == self._BaseVersion__full_version",)
+
+    def setup(self, ex):
+        return {"self": _vobj(ex)}
+
+
+def run_pyvc(ctx, real):
+    sl = SpecLib()
+    w = World(sl)
+    pat = real.BaseVersion.re_valid_version
+    w.spec_env["VRE"] = VFunc("builtin", "VRE", fn=lambda ex, a, kw: VPy(pat))
+    for f in (ver_accepted, g_epoch, g_upstream, g_revision, recompose, ver_inv):
+        w.spec_func(f)
+    base = [SetFull(), UpdateFull()]
+    for c in base:
+        w.add_contract(c)
+    variants = [SetAttr(a) for a in ("full_version", "epoch", "upstream_version", "debian_revision", "debian_version")]
+    variants += [GetAttr(a) for a in ("full_version", "epoch", "upstream_version", "debian_revision", "debian_version")]
+    variants += [Str()]
+    for c in variants:
+        c.__class__ = type("%s_%s" % (c.__class__.__name__, getattr(c, "attr", "x")), (c.__class__,), {})
+    verify_contracts(ctx, w, base + variants, {})
+    ctx.trusted.append("regex groups of re_valid_version as uninterpreted functions shared by code and spec; a revision group that "
+                       "participates is non-empty (R+ in the pattern)")
 
 
 def _group_items(items, gid):
